@@ -20,6 +20,11 @@ def boundary_sizes():
         for k in (1, 2, 3, 4):
             for d in (-1, 0, 1):
                 sizes.add(k * b + d)
+    # block sizes a refactoring may switch to (16 / 32 / 64 KiB; shutil's copy buffer is 64 KiB, 1 MiB on some platforms)
+    for b in (16384, 32768, 65536):
+        for d in (-1, 0, 1):
+            sizes.add(b + d)
+    sizes.update((2 * 65536 + 1, 1048576 + 1))
     return sorted(sizes)
 
 
